@@ -301,10 +301,8 @@ func c20Run(e *c20Env, sc c20Scenario) (fail string, faultHit bool) {
 			}()
 			done <- subject.Send(e.msgs[mi])
 		}()
-		var err error
-		select {
-		case err = <-done:
-		case <-time.After(15 * time.Second):
+		err, returned := patientRecv(done, 15*time.Second)
+		if !returned {
 			return fmt.Sprintf("send %d of [%s] did not return within 15 s (hang)", i+1, sc), faultHit
 		}
 		if err != nil && strings.HasPrefix(err.Error(), "panic:") {
@@ -347,13 +345,13 @@ func c20Run(e *c20Env, sc c20Scenario) (fail string, faultHit bool) {
 		}
 		if err == nil {
 			// wait for the real connections to have read what was written
-			deadline := time.Now().Add(5 * time.Second)
+			budget := newPatience(5 * time.Second)
 			for {
 				real := 0
 				for _, rc := range append(e.accept.since(startA), e.reset.since(startR)...) {
 					real += bytes.Count(rc.bytes(), wire)
 				}
-				if copies+real >= 1+delivered[mi] || time.Now().After(deadline) || (sc.Secondary == "reset" && !primaryAlive) {
+				if copies+real >= 1+delivered[mi] || budget.spent() || (sc.Secondary == "reset" && !primaryAlive) {
 					copies += real
 					break
 				}
